@@ -640,6 +640,68 @@ def check_cli_dirs_all(ev, fails, d):
                 except Failure as f:
                     fails.setdefault(f.key, f)
 
+# ---- hand-written sources through every path; one URI served by two lookups ------------------------------------------
+FIXED_SOURCES = [
+    # Python semantics of the embedded code do not depend on the path: annotations are objects, not strings
+    ("annotations", "<%!\n    def conv(value, kind: float = 0.0):\n        return conv.__annotations__['kind'](value)\n%>total: ${conv('2.5') * 4}\n",
+     "total: 10.0\n"),
+    ("division", "<% q = 7 / 2 %>${q} ${7 // 2} ${print is not None}\n", "3.5 3 True\n"),
+    ("nonlocal-walrus", "<%\n    def counter():\n        n = 0\n        def inc():\n            nonlocal n\n            n += 1\n            return n\n        return inc\n    c = counter()\n%>${c()}${c()} ${(w := 5) + w}\n", "12 10\n"),
+]
+
+
+def check_fixed_sources(ev, fails, d):
+    for name, src, want in FIXED_SOURCES:
+        k = next(_k)
+        case = {"part": "fixed-source", "name": name}
+        try:
+            out, meta, ts, fn, modfile = render_paths(src, k, d)
+        except Exception as e:  # noqa: BLE001
+            fails.setdefault("fixed-source:construct", Failure(case, "constructing %r failed on some path: %s: %s" % (src, type(e).__name__, e), "fixed-source:construct"))
+            continue
+        for pth, r in sorted(out.items()):
+            if r != ("ok", want):
+                f = Failure(case, "path %s renders %r, the text means %r\n--- source ---\n%s" % (pth, r, want, src), "fixed-source:" + name)
+                fails.setdefault(f.key, f)
+        ev.case(key=["fixed-source", name], nontrivial=True, labels=("fixed-source",))
+
+
+def check_same_uri_two_lookups(ev, fails, d):
+    """two lookups over different directories, each with a module directory of its own, serve different templates under one
+    URI: each keeps rendering, and answering has_def / list_defs / get_def for, its own template whatever was loaded since"""
+    from mako.lookup import TemplateLookup
+
+    texts = {"a": '<%def name="title()">ONE</%def><%def name="only_a()">a</%def>[${title()}] first', "b": '<%def name="title()">TWO</%def><%def name="only_b()">b</%def>[${title()}] second'}
+    want = {"a": ("[ONE] first", "ONE", ["only_a", "title"]), "b": ("[TWO] second", "TWO", ["only_b", "title"])}
+    for mode in ("module_directory", "memory"):
+        k = next(_k)
+        lks = {}
+        for who in ("a", "b"):
+            root = os.path.join(d, "same%d_%s" % (k, who))
+            os.makedirs(root)
+            with open(os.path.join(root, "page-one.html"), "w") as fh:
+                fh.write(texts[who])
+            kw = {"module_directory": os.path.join(d, "samemod%d_%s" % (k, who))} if mode == "module_directory" else {}
+            lks[who] = TemplateLookup(directories=[root], **kw)
+        for order in (("a", "b", "a"), ("b", "a", "b", "a")):
+            got = {}
+            ts = {}
+            for who in order[:2]:
+                ts[who] = lks[who].get_template("/page-one.html")
+            for who in order:
+                t = ts[who]
+                got[who] = (_run(t.render_unicode), _run(lambda: t.get_def("title").render_unicode()),
+                            sorted(n for n in t.list_defs() if n != "body"), t.has_def("only_a"), t.has_def("only_b"))
+            for who in ("a", "b"):
+                exp = (("ok", want[who][0]), ("ok", want[who][1]), want[who][2], who == "a", who == "b")
+                case = {"part": "same-uri", "mode": mode, "order": list(order), "who": who}
+                if got[who] != exp:
+                    f = Failure(case, "%s, both lookups loaded /page-one.html (%s), then template %s: expected %r, got %r"
+                                % (mode, "->".join(order), who, exp, got[who]), "same-uri-two-lookups:" + mode)
+                    fails.setdefault(f.key, f)
+                ev.case(key=["same-uri", mode, list(order), who], nontrivial=True, labels=("same-uri-two-lookups",))
+
+
 # ---- colliding URIs ---------------------------------------------------------
 def check_collision(ev, fails):
     from mako.template import Template
@@ -710,6 +772,8 @@ def run(ctx):
         check_inheriting_defs(ctx.ev, fails, d)
         check_catchall(ctx.ev, fails, d)
         check_cli_dirs_all(ctx.ev, fails, d)
+        check_fixed_sources(ctx.ev, fails, d)
+        check_same_uri_two_lookups(ctx.ev, fails, d)
     for f in fails.values():
         ctx.fail(f)
     n = ctx.pick(40, 1500)
@@ -743,6 +807,10 @@ def replay(case):
                 check_defopt(case, ev, d)
             elif part == "cli-dirs":
                 check_cli_dirs(case, ev, d)
+            elif part == "fixed-source":
+                check_fixed_sources(ev, fails, d)
+            elif part == "same-uri":
+                check_same_uri_two_lookups(ev, fails, d)
             elif part == "nsset":
                 from mako.lookup import TemplateLookup
 
